@@ -100,6 +100,15 @@ Check C16_code_index : forall a indices, shape_ok (ar_dims a) ->
   (forall e, rs_dimarray_get_linear_index (ar_dims a) indices = UErr e -> e = "BadSubscript"%string) /\
   array_linear_index a indices = rs_index_to_res (rs_dimarray_get_linear_index (ar_dims a) indices).
 
+(* ... and so in EVERY state a session can reach ([caps_inv], which C16_inv establishes at every turn boundary,
+   now also says that no dimension is 0): for every stored array and any subscripts the translated index computation
+   does not panic, is the model's, and indexes inside the cells *)
+Theorem C16_code_index_every_state : forall s name a indices, caps_inv s -> In (name, a) (arrays s) ->
+  rs_dimarray_get_linear_index (ar_dims a) indices <> UPanic /\
+  array_linear_index a indices = rs_index_to_res (rs_dimarray_get_linear_index (ar_dims a) indices) /\
+  forall i, rs_dimarray_get_linear_index (ar_dims a) indices = UOk i -> (i < N.of_nat (length (ar_cells a)))%N.
+Proof. exact rs_index_safe_in_every_state. Qed.
+
 (* non-vacuity: DIM A(99,99) on the translated code (10000 cells, accepted), its last cell, DIM A(100,99) (10100,
    rejected), a huge subscript (checked_mul fails: the error, not a panic), and — why the shape hypothesis is
    there — dimensions DimArray::new can never produce on which the translated index computation does panic *)
@@ -129,3 +138,4 @@ Print Assumptions C16_code_new.
 Print Assumptions C16_code_created_shape.
 Print Assumptions C16_code_index.
 Print Assumptions C16_code_index_in_cells.
+Print Assumptions C16_code_index_every_state.
